@@ -412,20 +412,23 @@ static void mi_segment_os_free(mi_segment_t* segment, mi_segments_tld_t* tld) {
     tld->reclaim_count--;
     segment->was_reclaimed = false;
   }
+  bool guards_removed = true;
   if (MI_SECURE>0) {
     // _mi_os_unprotect(segment, mi_segment_size(segment)); // ensure no more guard pages are set
     // unprotect the guard pages; we cannot just unprotect the whole segment size as part may be decommitted
     size_t os_pagesize = _mi_os_page_size();
-    _mi_os_unprotect((uint8_t*)segment + mi_segment_info_size(segment) - os_pagesize, os_pagesize);
+    if (!_mi_os_unprotect((uint8_t*)segment + mi_segment_info_size(segment) - os_pagesize, os_pagesize)) { guards_removed = false; }
     uint8_t* end = (uint8_t*)segment + mi_segment_size(segment) - os_pagesize;
-    _mi_os_unprotect(end, os_pagesize);
+    if (!_mi_os_unprotect(end, os_pagesize)) { guards_removed = false; }
   }
 
   // purge delayed decommits now? (no, leave it to the arena)
   // mi_segment_try_purge(segment,true,tld->stats);
 
   const size_t size = mi_segment_size(segment);
-  const size_t csize = _mi_commit_mask_committed_size(&segment->commit_mask, size);
+  // if a guard page could not be made accessible again, free the memory as "not committed" so it is fully
+  // re-committed (and thereby made accessible) before it is used again
+  const size_t csize = (guards_removed ? _mi_commit_mask_committed_size(&segment->commit_mask, size) : 0);
 
   _mi_arena_free(segment, mi_segment_size(segment), csize, segment->memid);
 }
